@@ -224,7 +224,96 @@ def gen_case(seed, tier, idx):
         T = rnd.randint(300, 400)
         sk = kind
     stim = gen_stim(rnd, sk, depth.bit_length() - 1, d, d // g, T)
-    return {"engine": "sram", "kind": kind, "cfg": cfg, "stim": stim}
+    case = {"engine": "sram", "kind": kind, "cfg": cfg, "stim": stim}
+    # mid-run synchronous resets, from a random stream of their own (the cases without one are exactly those
+    # generated before resets existed): 1-3 cycles, mostly those in which a request is being accepted (the
+    # acknowledge that would follow is lost; a write of that very cycle still reaches the memory, which has no
+    # reset) or acknowledged
+    rr = mkrnd(seed, "sram-reset", idx)
+    if len(stim) > 20 and rr.random() < 0.3:
+        span = list(range(2, len(stim) - 3))
+        req = [t for t in span if stim[t][0] and stim[t][1]]
+        case["resets"] = sorted(set(rr.choice(rr.choice([req, req, req, span]) or span) for _ in range(rr.choice([1, 2, 3]))))
+    return case
+
+
+def _segments(case):
+    """[(first, last)]: a segment ends with the cycle in which the reset is asserted"""
+    T = len(case["stim"])
+    rs = sorted(set(r for r in case.get("resets", []) if 0 <= r < T - 1))
+    out, a = [], 0
+    for r in rs:
+        out.append((a, r)); a = r + 1
+    out.append((a, T - 1))
+    return out
+
+
+def reset_cycles(case):
+    return [b for (a, b) in _segments(case)[:-1]] if case["stim"] else []
+
+
+def track(cfg, rows, stim, ack=0):
+    """Memory rows after the given cycles: accepted writes (cyc & stb & ~ack, we, writable) replace the selected
+    granules of the addressed row; ack follows cyc & stb & ~ack.  Used to hand each post-reset segment of the
+    model the memory contents the reset leaves untouched."""
+    s, d, g, depth = legal(cfg)
+    gm = (1 << g) - 1
+    rows = list(rows)
+    for cyc, stb, we, adr, sel, dat in stim:
+        acc = cyc and stb and not ack
+        if acc and we and cfg["wr"]:
+            a = adr & (depth - 1)
+            v = rows[a]
+            for k in range(d // g):
+                if (sel >> k) & 1:
+                    v = (v & ~(gm << (k * g))) | (dat & (gm << (k * g)))
+            rows[a] = v
+        ack = int(bool(acc))
+    return rows
+
+
+def model_cases(case):
+    """A mid-run reset restarts the model from its initial state with the memory as the reset found it: one model
+    run per segment, the init image of segment k being the tracked contents after segments 0..k-1."""
+    full = to_model(case)
+    if not case["stim"] or not reset_cycles(case) or not legal(case["cfg"]):
+        return [full]
+    c = case["cfg"]
+    s, d, g, depth = legal(c)
+    rows = [(c["init"][r] if r < len(c["init"]) else 0) & ((1 << d) - 1) for r in range(depth)]
+    out = []
+    for (a, b) in _segments(case):
+        seg = case["stim"][a:b + 1]
+        out.append([[sx_arg(c["size"]), sx_arg(c["dw"]), sx_arg(c["gran"]), c["wr"], list(rows)], seg])
+        rows = track(c, rows, seg)
+    return out
+
+
+def masked_rows(case):
+    """Rows whose dat_r shows the read port's data register as it was BEFORE a reset (the reset does not touch it,
+    the restarted model does not know it): the first row after the reset, and the second one too when a write is
+    accepted in the first (the register is not loaded at that edge).  ack is 0, or acknowledges a write, there."""
+    out = []
+    T = len(case["stim"])
+    for r in reset_cycles(case):
+        out.append(r + 1)
+        cyc, stb, we = case["stim"][r + 1][:3]
+        if cyc and stb and we and case["cfg"]["wr"] and r + 2 < T:
+            out.append(r + 2)
+    return out
+
+
+def model_join(case, results):
+    """rows concatenated; masked_rows are -1 on both sides"""
+    first = results[0]
+    if first[0] != 0:
+        return first
+    rows = [list(r) for r in first[2]]
+    for r in results[1:]:
+        rows += [list(x) for x in r[2]]
+    for t in masked_rows(case):
+        rows[t][1] = -1
+    return [0, first[1], rows]
 
 
 # ---------- model side ----------
@@ -291,7 +380,10 @@ def run_impl(case):
     def probe(ctx, t):
         return [int(ctx.get(x)) for x in cells]
     ins = [bus.cyc, bus.stb, bus.we, bus.adr, bus.sel, bus.dat_w]
-    rows = S.simulate(dut, ins, [bus.ack, bus.dat_r], case["stim"], probe=probe)
+    rs = reset_cycles(case)
+    rows = S.simulate(dut, ins, [bus.ack, bus.dat_r], case["stim"], probe=probe, reset_at=rs)
+    for t in masked_rows(case):
+        rows[t][1] = -1              # see model_join
     return [0, geo, rows]
 
 
@@ -326,9 +418,12 @@ def oracle(case, obs):
     mem = [(cfg["init"][r] if r < len(cfg["init"]) else 0) & ((1 << dw) - 1) for r in range(depth)]   # abstract memory
     rows = obs[2]
     wr = cfg["wr"]
+    resets = set(reset_cycles(case))
     for t, (i, o) in enumerate(zip(case["stim"], rows)):
         cyc, stb, we, adr, sel, dat = i
         ack, dat_r, image = o
+        if t - 1 in resets and ack:
+            out.append(("C15", t, "ack asserted in the first cycle after a reset"))
         if t == 0 and ack:
             out.append(("C15", 0, "ack asserted in the first cycle"))
         if image != mem:
@@ -336,7 +431,7 @@ def oracle(case, obs):
             out.append(("C15", t, f"memory row {r} is {image[r]:#x}, accepted writes over init give {mem[r]:#x}"))
             mem = list(image)    # resynchronise: report each corruption once
         acc = cyc and stb and not ack
-        if t + 1 < len(rows):
+        if t + 1 < len(rows) and t not in resets:
             ack2, dat_r2, _ = rows[t + 1]
             if ack2 != int(bool(acc)):
                 why = ("held request acknowledged twice" if ack else "spontaneous ack") if ack2 else "request not acknowledged"
